@@ -879,6 +879,25 @@ func renderSteps(rootName string, steps []step) string {
 	return sb.String()
 }
 
+// renderStepsDelimited spells every identifier - the root type name too - as a delimited
+// identifier (`Patient`.`name`[0].`given`): the same path.
+func renderStepsDelimited(rootName string, steps []step) string {
+	var sb strings.Builder
+	if rootName != "" {
+		sb.WriteString("`" + rootName + "`")
+	}
+	for i, st := range steps {
+		if i > 0 || rootName != "" {
+			sb.WriteByte('.')
+		}
+		sb.WriteString("`" + st.Name + "`")
+		if st.Idx >= 0 {
+			fmt.Fprintf(&sb, "[%d]", st.Idx)
+		}
+	}
+	return sb.String()
+}
+
 // c02IndexedSteps renders the path to n with an indexer on every repeated step
 // selected by mask (bit i = step i).  The index is the position in the flattened
 // collection of that step, which equals the list index when all earlier steps are
